@@ -410,3 +410,210 @@ Proof.
     eapply sim_weaken; [|apply IH; apply set_nth_Forall; [cbn in Hv; lia|exact HF]].
     intros a b (-> & Hl & Hf). rewrite set_nth_length in Hl. auto.
 Qed.
+
+(* ---------------------------------------------------------------- monad plumbing *)
+Lemma mbind_assoc {A B C} (m : M A) (f : A -> M B) (g : B -> M C) bits :
+  mbind (mbind m f) g bits = mbind m (fun x => mbind (f x) g) bits.
+Proof. unfold mbind. destruct (m bits) as [[a rest]|e|e|p|]; reflexivity. Qed.
+
+Lemma sbind_assoc {A B C} (m : SM A) (f : A -> SM B) (g : B -> SM C) bits :
+  sbind (sbind m f) g bits = sbind m (fun x => sbind (f x) g) bits.
+Proof. unfold sbind. destruct (m bits) as [a rest|r]; reflexivity. Qed.
+
+Lemma mbind_ret {A B} (a : A) (f : A -> M B) bits : mbind (mret a) f bits = f a bits.
+Proof. reflexivity. Qed.
+Lemma sbind_ret {A B} (a : A) (f : A -> SM B) bits : sbind (sret a) f bits = f a bits.
+Proof. reflexivity. Qed.
+
+Lemma mbind_ret_r {A} (m : M A) bits : mbind m (fun a => mret a) bits = m bits.
+Proof. unfold mbind, mret. destruct (m bits) as [[a rest]|e|e|p|]; reflexivity. Qed.
+
+Lemma sim_huff bound t tbl bits : R_tbl bound t tbl ->
+  sim (fun a b => a = b /\ a < bound) (rd_huff t bits) (read_symbol tbl bits).
+Proof.
+  intros HR. destruct (huff_cases bound t tbl bits HR) as [(s & rest & Em & Es & Hs & _)|[Em Es]]; rewrite Em, Es; cbn.
+  - exists s. auto.
+  - exists RTruncated. reflexivity.
+Qed.
+
+(* building the tree = judging the length vector (strict reading) *)
+Lemma sim_new_vec cl bits : Forall (fun l => l < 2 ^ 32) cl ->
+  sim (fun t (_ : unit) => R_tbl (nlen cl) t (code_table cl)) (mlift (new_vec cl) bits) (rule_code true cl bits).
+Proof.
+  intros HF. pose proof (new_vec_vs_verdict cl HF) as H. unfold mlift, rule_code.
+  destruct (new_vec cl) as [t|e|e|p|]; try contradiction.
+  - destruct H as [V HR]. rewrite V. cbn. exists tt. auto.
+  - destruct H as [_ V]. destruct (code_verdict true cl); [|congruence]. cbn. eexists. reflexivity.
+Qed.
+
+Lemma Forall_lt_weaken (b b' : N) l : b <= b' -> Forall (fun x => x < b) l -> Forall (fun x => x < b') l.
+Proof. intros H. apply Forall_impl. intros a Ha. lia. Qed.
+Lemma Forall_le_lt (b b' : N) l : b < b' -> Forall (fun x => x <= b) l -> Forall (fun x => x < b') l.
+Proof. intros H. apply Forall_impl. intros a Ha. lia. Qed.
+
+(* ---------------------------------------------------------------- the code-length loop *)
+Lemma sim_read_code_lengths clc tbl max : R_tbl 19 clc tbl ->
+  forall reads acc prev bits, nlen acc <= max -> Forall (fun l => l <= 15) acc -> prev <= 15 ->
+  sim (fun a b => a = b /\ Forall (fun l => l <= 15) a /\ nlen a <= max)
+      (read_code_lengths reads max clc acc prev bits) (read_lengths reads max tbl acc prev bits).
+Proof.
+  intros HR. induction reads as [|reads IH]; intros acc prev bits Hlen Hacc Hprev; cbn [read_code_lengths read_lengths].
+  - cbn. exists acc. auto.
+  - fold (nlen acc). destruct (N.eqb_spec (nlen acc) max) as [E|E].
+    + replace (max <=? nlen acc) with true by (symmetry; apply N.leb_le; lia). cbn. exists acc. auto.
+    + replace (max <=? nlen acc) with false by (symmetry; apply N.leb_gt; lia).
+      unfold read_length_token. rewrite mbind_assoc.
+      destruct (huff_cases 19 clc tbl bits HR) as [(s & rest & Em & Es & Hs & _)|[Em Es]];
+        unfold mbind at 1; unfold sbind at 1; rewrite Em, Es; [|cbn; now exists RTruncated].
+      assert (AppLen : forall x k, nlen (acc ++ repeat x k) = nlen acc + N.of_nat k).
+      { intros x k. unfold nlen. rewrite app_length, repeat_length. lia. }
+      destruct (N.leb_spec s 15) as [C15|C15].
+      * replace (s <? 16) with true by (symmetry; apply N.ltb_lt; lia).
+        rewrite mbind_ret. cbv beta iota.
+        replace (nlen acc + 1 <=? max) with true by (symmetry; apply N.leb_le; lia). cbn [negb].
+        change (N.to_nat 1) with 1%nat. cbn [repeat].
+        apply IH.
+        -- unfold nlen in *. rewrite app_length. cbn [length]. lia.
+        -- apply Forall_app. split; [exact Hacc|]. constructor; [lia|constructor].
+        -- destruct (s =? 0); lia.
+      * replace (s <? 16) with false by (symmetry; apply N.ltb_ge; lia).
+        assert (Hs' : s = 16 \/ s = 17 \/ s = 18) by lia.
+        destruct Hs' as [ -> | [ -> | -> ] ]; cbv beta iota.
+        -- (* 16: repeat the previous non-zero length *)
+           change (16 =? 16) with true. change (16 =? 18) with false. cbv iota. rewrite mbind_assoc.
+           destruct (rd_cases 8 2 rest ltac:(lia)) as [(e & rest2 & Em2 & Es2 & He & _)|[Em2 Es2]];
+             unfold mbind at 1; unfold sbind at 1; rewrite Em2, Es2; [|cbn; now exists RTruncated].
+           rewrite mbind_ret. cbv beta iota. unfold require, rule_repeat_fits.
+           replace (e + 3) with (3 + e) by lia.
+           destruct (N.leb_spec (nlen acc + (3 + e)) max) as [Fit|Fit]; cbn [negb].
+           ++ rewrite sbind_ret. replace (if prev =? 0 then prev else prev) with prev by (destruct (prev =? 0); reflexivity).
+              apply IH.
+              ** rewrite AppLen. lia.
+              ** apply Forall_app. split; [exact Hacc|]. apply Forall_forall. intros x Hx. apply repeat_spec in Hx. lia.
+              ** exact Hprev.
+           ++ cbn. eexists. reflexivity.
+        -- (* 17: 3..10 zeros *)
+           change (17 =? 16) with false. change (17 =? 17) with true. change (17 =? 18) with false. cbv iota. rewrite mbind_assoc.
+           destruct (rd_cases 8 3 rest ltac:(lia)) as [(e & rest2 & Em2 & Es2 & He & _)|[Em2 Es2]];
+             unfold mbind at 1; unfold sbind at 1; rewrite Em2, Es2; [|cbn; now exists RTruncated].
+           rewrite mbind_ret. cbv beta iota. unfold require, rule_repeat_fits.
+           replace (e + 3) with (3 + e) by lia.
+           destruct (N.leb_spec (nlen acc + (3 + e)) max) as [Fit|Fit]; cbn [negb].
+           ++ rewrite sbind_ret. change (0 =? 0) with true. cbv iota.
+              apply IH.
+              ** rewrite AppLen. lia.
+              ** apply Forall_app. split; [exact Hacc|]. apply Forall_forall. intros x Hx. apply repeat_spec in Hx. lia.
+              ** exact Hprev.
+           ++ cbn. eexists. reflexivity.
+        -- (* 18: 11..138 zeros *)
+           change (18 =? 16) with false. change (18 =? 17) with false. change (18 =? 18) with true. cbv iota. rewrite mbind_assoc.
+           destruct (rd_cases 8 7 rest ltac:(lia)) as [(e & rest2 & Em2 & Es2 & He & _)|[Em2 Es2]];
+             unfold mbind at 1; unfold sbind at 1; rewrite Em2, Es2; [|cbn; now exists RTruncated].
+           rewrite mbind_ret. cbv beta iota. unfold require, rule_repeat_fits.
+           replace (e + 11) with (11 + e) by lia.
+           destruct (N.leb_spec (nlen acc + (11 + e)) max) as [Fit|Fit]; cbn [negb].
+           ++ rewrite sbind_ret. change (0 =? 0) with true. cbv iota.
+              apply IH.
+              ** rewrite AppLen. lia.
+              ** apply Forall_app. split; [exact Hacc|]. apply Forall_forall. intros x Hx. apply repeat_spec in Hx. lia.
+              ** exact Hprev.
+           ++ cbn. eexists. reflexivity.
+Qed.
+
+(* ---------------------------------------------------------------- read_prefix_code = read_code (strict reading) *)
+Lemma alphabet_size_bound k cache_len : cache_len <= 2048 -> alphabet_size k cache_len <= 2328.
+Proof. destruct k; cbn [alphabet_size]; lia. Qed.
+
+Lemma sym_width_ge8 k : 8 <= sym_width k.
+Proof. destruct k; cbn; lia. Qed.
+
+Lemma sim_one_bit_symbol bits :
+  sim (fun a b => a = b /\ a < 256) (mbind rd_bit (fun b => mret (N.b2n b)) bits) (read_bits 1 bits).
+Proof.
+  destruct bits as [|b r].
+  - cbn. exists RTruncated. reflexivity.
+  - cbn. exists (N.b2n b). split; [destruct b; reflexivity|]. split; [reflexivity|destruct b; cbn; lia].
+Qed.
+
+Lemma sim_read_prefix_code k cache_len bits : cache_len <= 2048 ->
+  sim (fun t cl => R_tbl (alphabet_size k cache_len) t (code_table cl))
+      (read_prefix_code k cache_len bits) (read_code true (alphabet_size k cache_len) bits).
+Proof.
+  intros Hc. pose proof (alphabet_size_bound k cache_len Hc) as HA.
+  set (A := alphabet_size k cache_len) in *.
+  unfold read_prefix_code, read_code. fold A.
+  eapply sim_bind; [apply sim_rd_bit|]. intros simple ? bits1 <-. destruct simple.
+  - (* simple code *)
+    eapply sim_bind; [apply sim_rd_bit|]. intros two ? bits2 <-.
+    eapply sim_bind; [apply sim_rd_bit|]. intros is8 ? bits3 <-.
+    eapply sim_bind with (R := fun a b => a = b /\ a < 256).
+    { destruct is8; [|apply sim_one_bit_symbol].
+      eapply sim_weaken; [|apply sim_rd; apply sym_width_ge8]. cbn. intros a b [-> H]. auto. }
+    intros first ? bits4 [<- Hf].
+    eapply sim_bind with (R := fun a b => match a with
+                                         | Some s => two = true /\ s < 256 /\ b = [first; s]
+                                         | None => two = false /\ b = [first] end).
+    { destruct two.
+      - eapply sim_bind; [apply sim_rd; apply sym_width_ge8|]. intros s ? bits5 [<- Hs]. apply sim_ret. cbn in Hs. auto.
+      - apply sim_ret. auto. }
+    intros second syms bits5 Hsec.
+    rewrite N.mod_small by lia.
+    destruct second as [s|].
+    + destruct Hsec as (-> & Hs & ->). rewrite N.mod_small by lia.
+      unfold require. cbn [forallb]. unfold rule_symbol_in_alphabet. rewrite andb_true_r.
+      destruct (N.ltb_spec first A) as [F1|F1]; cbn [negb andb]; [|apply sim_fail_fail].
+      destruct (N.ltb_spec s A) as [F2|F2]; cbn [negb]; [|apply sim_fail_fail].
+      rewrite sbind_ret.
+      destruct (N.eqb_spec s first) as [->|Ne]; cbn [negb].
+      * destruct (simple_one_tbl A first [first; first] F1 ltac:(discriminate)) as [V HR].
+        { intros x [<-|[<-|[]]]; reflexivity. }
+        unfold rule_code. rewrite V. rewrite sbind_ret. destruct (simple_codes first first) as [-> _].
+        cbn. eexists. split; [reflexivity|exact HR].
+      * destruct (simple_two_tbl A (N.min first s) (N.max first s) [first; s]) as [V HR]; [lia|lia| |].
+        { intros x. cbn [In]. lia. }
+        unfold rule_code. rewrite V. rewrite sbind_ret. destruct (simple_codes (N.min first s) (N.max first s)) as [_ ->].
+        cbn. eexists. split; [reflexivity|exact HR].
+    + destruct Hsec as (-> & ->).
+      unfold require. cbn [forallb]. unfold rule_symbol_in_alphabet. rewrite andb_true_r.
+      destruct (N.ltb_spec first A) as [F1|F1]; cbn [negb]; [|apply sim_fail_fail].
+      rewrite sbind_ret.
+      destruct (simple_one_tbl A first [first] F1 ltac:(discriminate)) as [V HR].
+      { intros x [<-|[]]; reflexivity. }
+      unfold rule_code. rewrite V. rewrite sbind_ret. destruct (simple_codes first first) as [-> _].
+      cbn. eexists. split; [reflexivity|exact HR].
+  - (* normal code *)
+    unfold read_code_length_code. rewrite !mbind_assoc.
+    eapply sim_bind; [apply sim_rd; lia|]. intros n ? bits2 [<- Hn].
+    replace (N.to_nat (n + 4)) with (N.to_nat (4 + n)) by lia.
+    rewrite mbind_assoc.
+    eapply sim_bind.
+    { change code_length_code_order with CODE_ORDER. apply sim_read_clc. apply Forall_forall. intros x Hx. apply repeat_spec in Hx. lia. }
+    intros cl ? bits3 (<- & Hlen & HF8).
+    eapply sim_bind.
+    { apply sim_new_vec. eapply Forall_lt_weaken; [|exact HF8]. lia. }
+    intros clc [] bits4 HRclc.
+    assert (HR19 : R_tbl 19 clc (code_table cl)).
+    { unfold nlen in HRclc. rewrite Hlen, repeat_length in HRclc. exact HRclc. }
+    eapply sim_bind; [apply sim_rd_bit|]. intros use_max ? bits5 <-.
+    eapply sim_bind with (R := fun reads ms => (reads <=? A) = (ms <=? A) /\ (reads <= A -> reads = ms)).
+    { destruct use_max.
+      - eapply sim_bind; [apply sim_rd; lia|]. intros n3 ? bits6 [<- Hn3].
+        eapply sim_bind; [apply sim_rd; cbn in Hn3; lia|]. intros v ? bits7 [<- Hv].
+        apply sim_ret. destruct (N.leb_spec (2 + v) 65535).
+        + rewrite N.min_l by lia. auto.
+        + rewrite N.min_r by lia. split; [|lia].
+          replace (65535 <=? A) with false by (symmetry; apply N.leb_gt; lia).
+          symmetry; apply N.leb_gt; lia.
+      - apply sim_ret. auto. }
+    intros reads ms bits6 [Hle Heq].
+    unfold require, rule_symbol_count. rewrite <- Hle.
+    destruct (N.leb_spec reads A) as [Fit|Fit]; cbn [negb]; [|apply sim_fail_fail].
+    rewrite sbind_ret. rewrite <- (Heq Fit).
+    eapply sim_bind.
+    { apply sim_read_code_lengths; [exact HR19|cbn; lia|constructor|lia]. }
+    intros lens ? bits7 (<- & HF15 & HlenA).
+    rewrite <- (mbind_ret_r (mlift (new_vec lens)) bits7).
+    eapply sim_bind.
+    { apply sim_new_vec. eapply Forall_le_lt; [|exact HF15]. lia. }
+    intros t [] bits8 HRt. apply sim_ret. eapply R_tbl_weaken; [exact HlenA|exact HRt].
+Qed.
